@@ -32,7 +32,7 @@ SPEC = {
          'n': {'quick': 160, 'thorough': 4000}},
     ],
     'known': {'1': 'F55'},
-    'rule': 'layouts of 1..6 commit reports of one chain, lengths 1..8, adjacent / holes / mixed / near 2^64 / overlapping / '
+    'rule': 'cases with a sort-key tie (two different executed ranges, or two different reports of a chain, with the same start: garbage readers only) are compared with the model for no-crash only, because the sort.Slice of Go leaves the order of equal keys open; layouts of 1..6 commit reports of one chain, lengths 1..8, adjacent / holes / mixed / near 2^64 / overlapping / '
             'next-starts-on-previous-end, given in order or shuffled; executed sets none / all / random 30% / 70% / prefix / suffix / '
             'one report / all but one / report edges / runs from inside one report into the next or the one after / strict inside; '
             'reader shapes one range per message (unordered and ordered), merged runs, chunks, repeated messages, runs split on a '
